@@ -87,7 +87,7 @@ type c15Case struct {
 	Writes     int    `json:"raw_writes"`
 	Pretty     bool   `json:"pretty"`
 	Accept     string `json:"accept"`
-	Coding     string `json:"coding"` // "" or gzip: a CompressingResponseWriter underneath
+	Coding     string `json:"coding"`               // "" or gzip: a CompressingResponseWriter underneath
 	MW         string `json:"middleware,omitempty"` // "", pass, wrap: an http middleware filter between the observing filter and the handler
 	FailFrom   int    `json:"fail_from_write"`
 	FailAccept int    `json:"failing_write_accepts"`
